@@ -38,8 +38,9 @@ EXPLANATION = (
 M = "monkeytype.tracing"
 
 
-def _trace() -> R:
-    return R("trace", id=K("in-flight"))
+def _trace(yielded: bool = False) -> R:
+    """the in-flight trace of a frame: nothing returned yet; `yielded`: a yield type has been recorded already"""
+    return R("trace", id=K("in-flight"), return_type=K(None), yield_type=S("type:earlier-yield") if yielded else K(None))
 
 
 def _kinds(effs: List[Tuple[Any, ...]]) -> List[str]:
